@@ -1,8 +1,12 @@
 //! fvh — flurry verification harness.  See /verif/DESIGN.md.
-#![allow(clippy::type_complexity, clippy::too_many_arguments)]
+#![allow(clippy::type_complexity, clippy::too_many_arguments, dead_code, static_mut_refs)]
 
 mod alloc;
 mod checks;
+mod conc;
+mod hb;
+mod lin;
+mod sched;
 mod inspect;
 mod model;
 mod runner;
